@@ -51,7 +51,7 @@ def events_protocol(c):
     p = run_harness(["evtrace-record", c.seed, cp, nm, nr, 60, ev], timeout=3000)
     if p.returncode != 0:
         c.tool_error("evtrace-record failed: " + p.stderr[-1500:])
-    rec = json.loads(p.stdout.strip().splitlines()[-1])
+    rec = json.loads(p.stdout.strip().split("\n")[-1])
     for pn in rec["panics"][:3]:
         c.report({"kind": "panic", "what": "parse panicked while its Marker-API calls were recorded", "text": pn["text"], "panic": pn["panic"], "site": (pn["panic"] or {}).get("func", "")})
     tr = run_tlc("events", "EventsTrace", "EventsTrace.cfg", workers=1, timeout=3000, dfs=True, xss="1g", env={"TRACE": ev})
